@@ -1,7 +1,8 @@
 #!/usr/bin/env python3
 """re-run detection for seeds already confirmed under /verif/seeded.
 usage: redetect.py <seed id> [<other property id>]      (with a second argument the result is stored as cross_detection)
-       redetect.py --missed                             (every seed whose own check did not detect it)"""
+       redetect.py --missed | --all                     (every seed whose own check did not detect it | every seed)
+The patch is applied in a scratch worktree (VAKT_REPO) with a private copy of the Lean project; /repo is not touched."""
 import json, os, subprocess, sys, time
 V = os.path.dirname(os.path.dirname(os.path.abspath(__file__)))
 
@@ -11,23 +12,49 @@ def sh(cmd, **kw):
     return p.returncode, p.stdout + p.stderr
 
 
+WT = '/tmp/wtseed'
+LEAN = '/tmp/wtseed_lean'
+
+
+def prepare():
+    """a scratch worktree of /repo's HEAD and a private copy of the Lean project: /repo itself is never touched"""
+    sh('git -C /repo worktree remove --force %s' % WT)
+    sh('git -C /repo worktree prune')
+    rc, out = sh('git -C /repo worktree add --detach -f %s HEAD' % WT)
+    if rc:
+        sys.exit('cannot create worktree: ' + out)
+    sh('rm -rf %s && cp -r %s %s' % (LEAN, os.path.join(V, 'lean'), LEAN))
+
+
+def cleanup():
+    sh('git -C /repo worktree remove --force %s' % WT)
+    sh('git -C /repo worktree prune')
+    sh('rm -rf %s' % LEAN)
+
+
 def one(sid, other=None):
     d = os.path.join(V, 'seeded', sid)
     meta = json.load(open(os.path.join(d, 'meta.json')))
     prop = other or meta['property']
-    if sh('git -C /repo status --porcelain -- vakt')[1].strip():
-        sys.exit('refusing: /repo is dirty')
+    sh('git -C %s checkout -q -- . && git -C %s clean -fdq' % (WT, WT))
     try:
-        rc, out = sh('git -C /repo apply %s' % os.path.join(d, 'patch.diff'))
+        rc, out = sh('git -C %s apply %s' % (WT, os.path.join(d, 'patch.diff')))
+        if rc:
+            rc, out = sh('git -C %s apply --3way %s' % (WT, os.path.join(d, 'patch.diff')))
+            sh('git -C %s reset -q' % WT)
         if rc:
             print(sid, 'patch does not apply to the current HEAD:', out[-200:])
+            meta['detection_current_head'] = 'patch does not apply'
+            json.dump(meta, open(os.path.join(d, 'meta.json'), 'w'), indent=1)
             return
         t0 = time.time()
-        rc, out = sh('./check %s --tier quick' % prop, cwd=V, timeout=3600)
+        rc, out = sh('./check %s --tier quick' % prop, cwd=V, timeout=3600,
+                     env=dict(os.environ, VAKT_REPO=WT, VERIF_NO_EVIDENCE='1', VERIF_LEAN_DIR=LEAN))
         det = {'check': './check %s --tier quick' % prop, 'exit': rc, 'wall_s': round(time.time() - t0, 1),
-               'violation_line': [l for l in out.splitlines() if l.startswith('VIOLATION')][:1], 'detected': rc == 1}
+               'violation_line': [l for l in out.splitlines() if l.startswith('VIOLATION')][:1], 'detected': rc == 1,
+               'repo_head': sh('git -C /repo rev-parse --short HEAD')[1].strip()}
     finally:
-        sh('git -C /repo checkout -- .')
+        sh('git -C %s checkout -q -- . && git -C %s clean -fdq' % (WT, WT))
     if other:
         meta.setdefault('cross_detection', {})[other] = det
     else:
@@ -35,13 +62,19 @@ def one(sid, other=None):
             meta['first_run_missed'] = True
         meta['detection'] = det
     json.dump(meta, open(os.path.join(d, 'meta.json'), 'w'), indent=1)
-    print(sid, prop, 'detected' if det['detected'] else 'MISSED (exit %d)' % rc, det['violation_line'])
+    print(sid, prop, 'detected' if det['detected'] else 'MISSED (exit %d)' % rc, det['violation_line'], flush=True)
 
 
-if sys.argv[1] == '--missed':
-    for sid in sorted(os.listdir(os.path.join(V, 'seeded'))):
-        m = json.load(open(os.path.join(V, 'seeded', sid, 'meta.json')))
-        if m.get('confirmed', {}).get('confirmed') and not (m.get('detection') or {}).get('detected'):
-            one(sid)
-else:
-    one(sys.argv[1], sys.argv[2] if len(sys.argv) > 2 else None)
+prepare()
+try:
+    if sys.argv[1] in ('--missed', '--all'):
+        for sid in sorted(os.listdir(os.path.join(V, 'seeded'))):
+            m = json.load(open(os.path.join(V, 'seeded', sid, 'meta.json')))
+            if not m.get('confirmed', {}).get('confirmed'):
+                continue
+            if sys.argv[1] == '--all' or not (m.get('detection') or {}).get('detected'):
+                one(sid)
+    else:
+        one(sys.argv[1], sys.argv[2] if len(sys.argv) > 2 else None)
+finally:
+    cleanup()
